@@ -19,7 +19,10 @@ case: {'kind': 'network', 'N': [...], 'D': [...], 'form': str, 'mode': 'impedanc
       {'kind': 'transform', 'net': tree, 'form': str}
 """
 import json
+import os
+import signal
 import sys
+import time
 from fractions import Fraction
 
 import sympy as sym
@@ -120,8 +123,23 @@ def exact_zero(d):
     n = sym.expand(n)
     if n == 0:
         return True
+    if n.is_polynomial(ssym) and all(cf.is_Rational for cf in sym.Poly(n, ssym).all_coeffs()):
+        return False
     n = sym.simplify(n)
     return n == 0
+
+
+class CaseTimeout(Exception):
+    pass
+
+
+def _alarm(signum, frame):
+    raise CaseTimeout()
+
+
+signal.signal(signal.SIGALRM, _alarm)
+T_CALL = int(os.environ.get('C19_T_CALL', '20'))
+T_ORACLE = int(os.environ.get('C19_T_ORACLE', '15'))
 
 
 def run_case(c):
@@ -156,13 +174,26 @@ def run_case(c):
                 call = lambda: syn.network(Zreq, c['form'])
     except Exception as e:
         return {'status': 'setup-error', 'errtype': type(e).__name__, 'msg': str(e)[:200]}
+    if c['kind'] == 'transform' or c.get('sym'):
+        try:
+            out['zreq'] = ratfun_coeffs(Zreq, point)
+        except Exception:
+            out['zreq'] = None
+    t0 = time.time()
+    signal.alarm(T_CALL)
     try:
         net = call()
         err = None
+    except CaseTimeout:
+        out.update(status='timeout', secs=round(time.time() - t0, 1))
+        return out
     except RecursionError as e:
         net, err = None, e
     except Exception as e:
         net, err = None, e
+    finally:
+        signal.alarm(0)
+    out['secs'] = round(time.time() - t0, 2)
     # recorded realiser arguments (foster terms)
     if c['form'] in ('fosterI', 'fosterII'):
         want = None
@@ -181,20 +212,22 @@ def run_case(c):
     out['status'] = 'net'
     out['tree'] = tree if ok else None
     out['text'] = str(net)[:300]
+    signal.alarm(T_ORACLE)
     try:
         d = net.Z(s).sympy - Zreq.sympy
         if exact_zero(d):
             out['oracle'] = 'ok'
         else:
             out['oracle'] = 'bad'
-            out['zdiff'] = str(sym.factor(sym.together(d)))[:300]
+            out['zdiff'] = str(sym.together(d))[:300]
+    except CaseTimeout:
+        out['oracle'] = 'na'
+        out['oracle_error'] = 'timeout'
     except Exception as e:
         out['oracle'] = 'na'
         out['oracle_error'] = '%s: %s' % (type(e).__name__, str(e)[:120])
-    if c['kind'] == 'transform':
-        out['zreq'] = ratfun_coeffs(Zreq, None)
-    elif c.get('sym'):
-        out['zreq'] = ratfun_coeffs(Zreq, point)
+    finally:
+        signal.alarm(0)
     return out
 
 
@@ -204,6 +237,9 @@ def main():
     for c in cases:
         try:
             res.append(run_case(c))
+        except CaseTimeout:
+            signal.alarm(0)
+            res.append({'status': 'timeout'})
         except RecursionError as e:
             res.append({'status': 'harness-error', 'msg': 'RecursionError'})
         except Exception as e:
